@@ -17,12 +17,18 @@ def sh(cmd, cwd=None, timeout=3600):
     r = subprocess.run(cmd, shell=True, cwd=cwd, stdout=subprocess.PIPE, stderr=subprocess.STDOUT, text=True, timeout=timeout)
     log.append({'cmd': cmd, 'cwd': cwd, 'rc': r.returncode, 'secs': round(time.time() - t, 1), 'tail': r.stdout[-1500:]})
     return r
+if '--recreate' in sys.argv and not os.path.exists(wt):
+    # rebuild a worktree from the archived seed (used when a confirmation has to be repeated)
+    sh('git -C /repo worktree add -q %s HEAD' % wt)
+    shutil.copytree(os.path.join(V, 'seeded', name), seed)
+    sh('cmake -G Ninja -S . -B _build > /dev/null', cwd=wt)
+    sh('git apply seed/patch.diff', cwd=wt)
 patch = os.path.join(seed, 'patch.diff')
 assert os.path.exists(patch), 'no patch.diff'
 meta = {'property': prop, 'name': name, 'worktree': wt}
 # 1. with change (as left by the agent): rebuild to be sure, run demo
 sh('ninja -C _build > /dev/null', cwd=wt)
-r1 = sh('sh seed/run_demo.sh', cwd=wt, timeout=3000)
+r1 = sh('bash seed/run_demo.sh', cwd=wt, timeout=3000)
 meta['demo_with_change_rc'] = r1.returncode
 # 2. ctest summary with the change (re-run the full suite ourselves)
 r2 = sh('ctest --test-dir _build -j8 --timeout 2400 2>&1 | tail -120', cwd=wt, timeout=7200)
@@ -46,7 +52,7 @@ meta['baseline_tests_failing_with_change'] = still
 # 3. without change
 sh('git apply -R seed/patch.diff', cwd=wt)
 sh('ninja -C _build > /dev/null', cwd=wt)
-r3 = sh('sh seed/run_demo.sh', cwd=wt, timeout=3000)
+r3 = sh('bash seed/run_demo.sh', cwd=wt, timeout=3000)
 meta['demo_without_change_rc'] = r3.returncode
 sh('git apply seed/patch.diff', cwd=wt)
 # 4. archive
